@@ -71,6 +71,16 @@ for fp in sorted(glob.glob(os.path.join(root, "harness", "extract", "facts_*.go"
         desc = " ".join(l.strip("/ ").strip() for l in src.split("\n") if l.startswith("//"))[:260]
         out.append("| `%s` | `%s` | %s | %s |" % (name, os.path.basename(fp), desc.replace("|", "\\|"), ", ".join(users.get(name, [])) or "-"))
 out.append("")
+sr = os.path.join(root, "seeded", "RESULTS.md")
+if os.path.exists(sr):
+    out.append("### 10.3 Seeded changes: which check catches which change\n")
+    out.append("Every `seeded/<name>/` holds an independently written change to rqlite (patch.diff), its demonstration\n"
+               "(a test that fails with the change and passes without it), meta.json (what it breaks, what it needs to\n"
+               "manifest, what was run) and the logs of our own confirmation. The authors saw only the property text.\n"
+               "`tools/run_seeded.sh <name> <tier> [check ids]` applies one to a scratch worktree of /repo and runs the\n"
+               "checks against it with VERIF_REPO; `tools/seed_matrix.sh` runs all of them. Last matrix:\n")
+    out += [l for l in open(sr).read().split("\n") if not l.startswith("# ")] 
+    out.append("")
 text = "\n".join(out)
 dp = os.path.join(root, "DESIGN.md")
 d = open(dp).read()
